@@ -48,4 +48,9 @@ BUILT = {
   level='exploration',
   text='Conditional trees with model-predicted outcomes (exact #if arithmetic, defined, undefined identifiers, unevaluated operands, skipped groups full of junk, trailing tokens) and include graphs (same-named headers across includer dir/-I/-idirafter, 10 guard shapes, #pragma once, macro-expanded and #include_next forms, -include/-D/-U histories) must yield the marker sequence both references produce.',
   note='trusts gcc/clang textual inclusion semantics; #include_next restricted to the shape D31 (recorded) does not affect'),
+ 'C18': dict(
+  technique='property-based model-based testing: Hypothesis-generated files as sequences of line items with probes; expected physical line/file counted by the generator (cross-checked by gcc+clang); observed through -E (__LINE__/__FILE__), -S (.loc records) and the location of a deliberately provoked diagnostic',
+  level='exploration',
+  text='Files with blank lines, comments spanning lines, splices between and inside tokens and comments, multi-line defines, nested includes, #line, CR/LF and filler pushing them across read-buffer boundaries; every __LINE__/__FILE__ probe (direct and through macros), every .loc record of a marker call and the line of a provoked diagnostic must equal the physical position the generator counted.',
+  note='model trusted only where gcc and clang confirm it; probes on continuation lines (D40) and absolute line values after #line (D48) excluded, both recorded'),
 }
